@@ -237,6 +237,22 @@ def _extra_bits(d):
     return out
 
 
+def _reorder(j, xname, how):
+    """the same JSON value with the keys of every object reversed / the undeclared member moved first or to the middle"""
+    if isinstance(j, list):
+        return [_reorder(x, xname, how) for x in j]
+    if not isinstance(j, dict):
+        return j
+    items = [(k, _reorder(v, xname, how)) for k, v in j.items()]
+    if how == "reverse":
+        items.reverse()
+    elif xname in j:
+        rest = [(k, v) for k, v in items if k != xname]
+        x = [(k, v) for k, v in items if k == xname]
+        items = x + rest if how == "first" else rest[:1] + x + rest[1:]
+    return dict(items)
+
+
 def _replay(chk, mode, lm, r, spec):
     """turn the symbolic counterexample into JSON and run it through the real converter"""
     site = lm.site
@@ -257,19 +273,22 @@ def _replay(chk, mode, lm, r, spec):
         root = replay.root_type(root_name)
         if mode == "C15":
             base = _strip_extras(root_json, r.args.get("xname"))
-            code = _extra_code(base, root_json, root_name)
             from . import leafrt
 
-            ok, detail = leafrt.run_code(code)
-            if not ok:
-                chk.violation("%s: undeclared property %r: %s" % (site, r.args.get("xname"), detail), {"kind": "python", "code": code, "site": site, "args": r.args})
-                return
+            # the undeclared member last (as concretised), first, and between declared members
+            for variant in (root_json, _reorder(root_json, r.args.get("xname"), "first"), _reorder(root_json, r.args.get("xname"), "middle")):
+                code = _extra_code(base, variant, root_name)
+                ok, detail = leafrt.run_code(code)
+                if not ok:
+                    chk.violation("%s: undeclared property %r: %s" % (site, r.args.get("xname"), detail), {"kind": "python", "code": code, "site": site, "args": r.args})
+                    return
             tried.append("%s: extra key had no concrete effect" % path)
             continue
-        ok, detail, out = replay.roundtrip(root_json, root)
-        if not ok:
-            chk.violation("%s: %s" % (site, detail), {"kind": "roundtrip", "json": root_json, "root": root_name, "site": site, "args": r.args})
-            return
+        for variant in (root_json, _reorder(root_json, None, "reverse")):  # JSON objects are unordered
+            ok, detail, out = replay.roundtrip(variant, root)
+            if not ok:
+                chk.violation("%s: %s" % (site, detail), {"kind": "roundtrip", "json": variant, "root": root_name, "site": site, "args": r.args})
+                return
         ok2, detail2 = replay.roundtrip_fresh(root_json, root_name)
         if not ok2:
             chk.violation("%s: on the first converter created in a process: %s" % (site, detail2), {"kind": "roundtrip", "json": root_json, "root": root_name, "site": site, "args": r.args, "note": "reproduces only on the first converter of a process (run the replay in a fresh interpreter)"})
